@@ -244,7 +244,7 @@ theorem inlineRequire_errPre (G : Graph P) (n : Nat) : ∀ stack p st, ErrPre st
         · exact ErrPre.refl _
         · exact ⟨[], by simp⟩
         · rename_i sites ret _
-          have hv := visit_errPre (inlineRequire G n (stack ++ [p])) false sites (ih (stack ++ [p])) st
+          have hv := visit_errPre (inlineRequire G n (stack ++ [p])) true sites (ih (stack ++ [p])) st
           split
           · exact hv
           · exact hv
@@ -281,10 +281,10 @@ theorem visit_specC (G : Graph P) (stack : List P)
 
 theorem edge_of_get {G : Graph P} {q : P} {sites : List (Site P)} {ret : RetShape}
     (hget : G.get q = some (.lua sites ret)) (q' : P) (he : Edge G q q') :
-    ∃ s ∈ sites, s.target = .file q' := by
-  obtain ⟨sites', ret', hg, s, hs, ht⟩ := he
+    ∃ s ∈ sites, s.shadowed = false ∧ s.target = .file q' := by
+  obtain ⟨sites', ret', hg, s, hs, hsh, ht⟩ := he
   rw [hget] at hg; cases hg
-  exact ⟨s, hs, ht⟩
+  exact ⟨s, hs, hsh, ht⟩
 
 theorem inlineRequire_specC (G : Graph P) (n : Nat) :
     ∀ stack q, free G stack < n → InlSpecC G stack (inlineRequire G n stack) q := by
@@ -350,7 +350,7 @@ theorem inlineRequire_specC (G : Graph P) (n : Nat) :
             have hfree' : free G (stack ++ [q]) < n := by
               have := free_lt G stack q _ hqstack hget
               omega
-            have hv := visit_specC G (stack ++ [q]) (inlineRequire G n (stack ++ [q])) false sites
+            have hv := visit_specC G (stack ++ [q]) (inlineRequire G n (stack ++ [q])) true sites
               (inlineRequire_errPre G n (stack ++ [q]))
               (fun s _ q' _ => ih (stack ++ [q]) q' hfree') st (Or.inr ⟨hn, hf'⟩)
             rcases hv with hv | ⟨hn1, hf1, hm1, hdone⟩
@@ -359,14 +359,14 @@ theorem inlineRequire_specC (G : Graph P) (n : Nat) :
               · exact Or.inl hv
               · exact Or.inl hv
               · obtain ⟨ps, hps⟩ := hv; exact Or.inl ⟨ps, hps⟩
-            · have hfs : FreshF stack (visit (inlineRequire G n (stack ++ [q])) false sites st).2 :=
+            · have hfs : FreshF stack (visit (inlineRequire G n (stack ++ [q])) true sites st).2 :=
                 fun x hx => hf1 x (List.mem_append_left _ hx)
-              have hq1 : q ∉ (visit (inlineRequire G n (stack ++ [q])) false sites st).2.finished :=
+              have hq1 : q ∉ (visit (inlineRequire G n (stack ++ [q])) true sites st).2.finished :=
                 hf1 q (by simp)
-              have hready : Ready G q (visit (inlineRequire G n (stack ++ [q])) false sites st).2 := by
+              have hready : Ready G q (visit (inlineRequire G n (stack ++ [q])) true sites st).2 := by
                 intro q' he
-                obtain ⟨s, hs, ht⟩ := edge_of_get hget q' he
-                exact hdone s hs q' (by simp [activeTarget, ht])
+                obtain ⟨s, hs, hsh, ht⟩ := edge_of_get hget q' he
+                exact hdone s hs q' (by simp [activeTarget, hsh, ht])
               split
               · exact Or.inr (Or.inr ⟨hn1, hfs, hm1, fun i hi => by simp at hi, fun e _ => ⟨hready, hq1, hqstack⟩⟩)
               · exact Or.inr (Or.inr ⟨hn1, hfs, hm1, fun i hi => by simp at hi, fun e _ => ⟨hready, hq1, hqstack⟩⟩)
